@@ -493,6 +493,12 @@ M('C03', 'apply_local_op normalises the labels of the operator in place', MPS,
   'OWN-param-icall')
 
 # ---------------------------------------------------------------- C09
+M('C09', 'get_B scales the left leg by the change of the right exponent', MPS,
+  "self._scale_axis_B(B, self.get_SL(i), new_form[0] - old_form[0], 'vL', cutoff)",
+  "self._scale_axis_B(B, self.get_SL(i), new_form[1] - old_form[1], 'vL', cutoff)", 'MPS-form-flow')
+M('C09', 'get_B exponent difference reversed', MPS,
+  "self._scale_axis_B(B, self.get_SR(i), new_form[1] - old_form[1], 'vR', cutoff)",
+  "self._scale_axis_B(B, self.get_SR(i), old_form[1] - new_form[1], 'vR', cutoff)", 'MPS-form-flow')
 M('C09', 'roll converts to B form (original defect)', MPS,
   'new_B = [self.get_B(i, form=None) for i in inds]', 'new_B = [self.get_B(i) for i in inds]',
   'MPS-form-flow')
